@@ -76,6 +76,7 @@ SIM_CHECKS = {
         'cells': 'c08',
         'bitmap': True,
         'needs_history_rule': True,
+        'py_stage': {'runs': {'quick': 24000, 'thorough': 1200000}},
         'extra_coverage': lambda total: {
             'cached_year_transitions': {
                 'measure': 'ordered (zone, previously cached year, queried year) triples with both years in 1999..2050, '
@@ -310,6 +311,44 @@ def run_sim_check(prop, tier, verif_seed, spec=None, runs_override=None):
             if triaged >= 25:
                 K.log('[%s] too many known findings / notes to keep triaging; stopping the search here' % prop)
                 break
+    py_half = None
+    if spec.get('py_stage') and exit_code == 0:
+        from pysim import check as P
+        pd = P.determinism(verif_seed)
+        determinism['python'] = pd
+        if pd['mismatches']:
+            raise K.HarnessError('pysim determinism self-check failed (PYTHONHASHSEED dependence)')
+        py_runs = spec['py_stage']['runs'][tier] if not runs_override else max(200, runs_override // 10)
+        pos = 0
+        agg = {'runs': 0, 'cov': {}, 'samples': [], 'nontrivial_runs': 0, 'wall': 0.0}
+        res = P.campaign(verif_seed, py_runs)
+        for k, v in res['cov'].items():
+            agg['cov'][k] = v
+        agg.update({'runs': res['runs'], 'samples': res['samples'], 'nontrivial_runs': res['nontrivial_runs'],
+                    'wall': res['wall']})
+        for v in res['viol'][:5]:
+            kind, info = P.triage(prop, tier, verif_seed, v)
+            if kind == 'violation':
+                print('VIOLATION property=%s replay=%s' % (prop, info))
+                K.log('[%s] %s: %s' % (prop, v['vclass'], v['msg']))
+                violations += 1
+                exit_code = 1
+                break
+            if info['id'] not in known_printed:
+                print('KNOWN-FINDING: property=%s %s' % (prop, info['what']))
+                known_printed.add(info['id'])
+        py_half = {
+            'engine': 'pysim (tools/zonedb/zone_specifier.py, tools/zonedbpy tables)',
+            'runs': agg['runs'], 'nontrivial_runs': agg['nontrivial_runs'],
+            'ops_compared_with_fresh_instance': agg['cov'].get('ops', 0),
+            'nontrivial_ops': agg['cov'].get('nontrivial_ops', 0),
+            'fault_counts': {'oor_query': agg['cov'].get('oor_query', 0),
+                             'fresh_instance_failures': agg['cov'].get('fresh_failures', 0)},
+            'distinct_cells': len(agg['cov'].get('cells', ())),
+            'cell_rule': '(op kind, cache state relative to the op, year class, viewing_months)',
+            'sample': (agg['samples'] or [''])[0],
+            'wall_s': round(agg['wall'], 2),
+        }
     wall = time.time() - t0
     cells = total['cells'].get(spec['cells'], set())
     cov = {
@@ -337,6 +376,8 @@ def run_sim_check(prop, tier, verif_seed, spec=None, runs_override=None):
     }
     if spec.get('extra_coverage'):
         cov.update(spec['extra_coverage'](total))
+    if py_half:
+        cov['python_half'] = py_half
     doc = {
         'property_id': prop, 'tier': tier, 'seed': verif_seed, 'level': 'exploration',
         'coverage': cov, 'assumptions': spec['assumptions'], 'wall_s': round(wall, 2),
